@@ -54,6 +54,8 @@ def run(res, f, tier):
         if len(p["rhs"]) == 1 and p["rhs"][0] in lexical.CONSTANTS and p["term"] and p["lhs"] != "Func":
             want = lexical.CONSTANTS[p["rhs"][0]]
             got = [t for _, t in p["term"]]
+            if got == ["<()>"]:
+                continue     # a keyword-grouping nonterminal (`IsNoneKwd: () = {"is_none", "none"}`): carries no value
             ob(got == [want], "C08|constant|%s" % p["rhs"][0], "the literal %s must denote %s, found %s" % (p["rhs"][0], want, got))
     for T, spec in sorted(lexical.LITERALS.items()):
         h = helper_of.get(T)
